@@ -638,6 +638,7 @@ theorem TCInv_closed : Closed TCInv where
   front := fun s f h => ⟨CInv_closed.front s f h.1, TInv_front s f h.1 h.2⟩
   siteCnt := fun _ _ h => ⟨h.1, TInv_of_tview h.2 rfl⟩
   emitInj := fun _ _ _ _ _ h => ⟨h.1, TInv_of_tview h.2 rfl⟩
+  note := fun _ h => ⟨h.1, TInv_of_tview h.2 rfl⟩
   clock := fun _ _ h => ⟨h.1, TInv_of_tview h.2 rfl⟩
   lastFlush := fun _ _ h => ⟨h.1, TInv_of_tview h.2 rfl⟩
   gone := fun _ h => ⟨h.1, TInv_of_tview h.2 rfl⟩
